@@ -2,14 +2,16 @@
 """Re-evaluate every kept seeded defect (/verif/seeded/*) with the current checks and write seeded/SUMMARY.md."""
 import json, os, subprocess, sys
 VERIF = os.path.dirname(os.path.dirname(os.path.abspath(__file__)))
-EXTRA = {"C02": ["C06"], "C04": ["C07"], "C05": ["C16"], "C07": ["C04"], "C08": ["C09", "C16"], "C10": ["C11", "C01"], "C01": ["C10", "C11"],
-         "C11": ["C10"], "C12": ["C15"], "C13": ["C14"], "C14": ["C13"], "C15": ["C12"], "C16": ["C05"], "C17": ["C10"], "C19": ["C18"],
-         "C03": ["C09"], "C06": ["C10", "C11"], "C20": ["C16"]}
+EXTRA = {"C02": ["C06", "C05", "C16"], "C04": ["C07"], "C05": ["C16"], "C07": ["C04", "C09", "C05"], "C08": ["C09", "C16", "C14"],
+         "C10": ["C11", "C01"], "C01": ["C10", "C11", "C09"], "C11": ["C10"], "C12": ["C15"], "C13": ["C14"], "C14": ["C13"],
+         "C15": ["C12"], "C16": ["C05"], "C17": ["C10"], "C19": ["C18"], "C03": ["C09"], "C06": ["C10", "C11"], "C20": ["C16"],
+         "C09": ["C05", "C07"], "C18": ["C05"]}
 rows = []
-for name in sorted(os.listdir(os.path.join(VERIF, "seeded"))):
+JOBS = int(sys.argv[sys.argv.index("--jobs") + 1]) if "--jobs" in sys.argv else 1
+
+
+def evaluate(name):
     d = os.path.join(VERIF, "seeded", name)
-    if not os.path.isdir(d):
-        continue
     prop = next(t for t in name.split("_") if t.startswith("C") and t[1:].isdigit())
     checks = [prop] + EXTRA.get(prop, [])
     r = subprocess.run([sys.executable, os.path.join(VERIF, "tools", "seed_eval.py"), d, "--checks", ",".join(checks), "--keep-as", name],
@@ -19,9 +21,16 @@ for name in sorted(os.listdir(os.path.join(VERIF, "seeded"))):
     except Exception:
         rep = {"confirmed": None, "detected_by": None, "error": (r.stdout + r.stderr)[-300:]}
     meta = json.load(open(os.path.join(d, "meta.json")))
-    rows.append((name, prop, rep.get("confirmed"), rep.get("detected_by"), meta.get("summary", "")[:160].replace("\n", " "),
-                 meta.get("needs", "")[:200].replace("\n", " ")))
     print(name, rep.get("confirmed"), rep.get("detected_by"), rep.get("patch_error", ""), flush=True)
+    return (name, prop, rep.get("confirmed"), rep.get("detected_by"), meta.get("summary", "")[:160].replace("\n", " "),
+            meta.get("needs", "")[:200].replace("\n", " "))
+
+
+from multiprocessing.pool import ThreadPool
+
+names = [n for n in sorted(os.listdir(os.path.join(VERIF, "seeded"))) if os.path.isdir(os.path.join(VERIF, "seeded", n))]
+with ThreadPool(JOBS) as tp:
+    rows = tp.map(evaluate, names)
 with open(os.path.join(VERIF, "seeded", "SUMMARY.md"), "w") as f:
     f.write("# Seeded defects (written by independent sub-agents from the property text only) and which checks detect them\n\n")
     f.write("| seed | property | confirmed (tests pass with it, demo fails with it, passes without) | detected by (quick tier, seeds 1,2) | change | needs |\n|---|---|---|---|---|---|\n")
